@@ -28,13 +28,14 @@ var absTrace = os.Getenv("VERIF_ABSTRACE") != ""
 type aval interface{}
 
 type (
-	abool bool
-	aint  int64
-	astr  string
-	asym  struct{ name string } // opaque ordered quantity
-	anil  struct{}
-	aunk  struct{ why string }
-	aptr  struct {
+	abool  bool
+	aint   int64
+	afloat float64 // a concrete floating-point number (q-values, mostly)
+	astr   string
+	asym   struct{ name string } // opaque ordered quantity
+	anil   struct{}
+	aunk   struct{ why string }
+	aptr   struct {
 		obj  *aobj
 		path string
 	}
@@ -62,6 +63,7 @@ type aobj struct {
 }
 
 type absEnv struct {
+	mapRev   bool                                          // walk maps in descending key order (default: ascending)
 	cmp      func(a, b aval) (int, bool)                   // order oracle for asym/aint pairs
 	globals  map[string]*aobj                              // package-level variables by name
 	ext      func(callee string, args []aval) (aval, bool) // results of calls the rule treats as atomic inputs
@@ -102,6 +104,8 @@ func zeroOf(t types.Type) aval {
 			return abool(false)
 		case u.Info()&types.IsInteger != 0:
 			return aint(0)
+		case u.Info()&types.IsFloat != 0:
+			return afloat(0)
 		case u.Info()&types.IsString != 0:
 			return astr("")
 		}
@@ -232,6 +236,10 @@ func (e *absEnv) val(fr *absFrame, v ssa.Value) aval {
 		if t.Value == nil {
 			return zeroOf(t.Type())
 		}
+		if b, ok := underlying(t.Type()).(*types.Basic); ok && b.Info()&types.IsFloat != 0 {
+			f, _ := constant.Float64Val(t.Value)
+			return afloat(f)
+		}
 		switch t.Value.Kind() {
 		case constant.Bool:
 			return abool(constant.BoolVal(t.Value))
@@ -343,6 +351,8 @@ func describeAval(v aval) string {
 		return fmt.Sprintf("%v", bool(t))
 	case aint:
 		return fmt.Sprintf("%d", int64(t))
+	case afloat:
+		return fmt.Sprintf("%g", float64(t))
 	case astr:
 		return fmt.Sprintf("%q", string(t))
 	case asym:
@@ -451,6 +461,32 @@ func (e *absEnv) binop(op token.Token, a, b aval) aval {
 				return x ^ y
 			case token.AND_NOT:
 				return x &^ y
+			case token.EQL:
+				return abool(x == y)
+			case token.NEQ:
+				return abool(x != y)
+			case token.LSS:
+				return abool(x < y)
+			case token.LEQ:
+				return abool(x <= y)
+			case token.GTR:
+				return abool(x > y)
+			case token.GEQ:
+				return abool(x >= y)
+			}
+		}
+	}
+	if x, ok := a.(afloat); ok {
+		if y, ok := b.(afloat); ok {
+			switch op {
+			case token.ADD:
+				return x + y
+			case token.SUB:
+				return x - y
+			case token.MUL:
+				return x * y
+			case token.QUO:
+				return x / y
 			case token.EQL:
 				return abool(x == y)
 			case token.NEQ:
